@@ -507,6 +507,9 @@ func verifTraceOrder(trace []vevent) string {
 			if e.kind == "Logout" {
 				return "second-logout"
 			}
+			if e.kind == "Data" || e.kind == "LMTPData" {
+				return "delivery-begins-after-logout"
+			}
 			return "callback-after-logout"
 		}
 		switch e.kind {
